@@ -1,5 +1,6 @@
 """C05 - handshake agrees and recovers under loss, duplication, reordering, dual open"""
 import itertools
+import re
 from check import Property
 from props import pcutil as pu
 from props import nodeutil as nu
@@ -164,6 +165,20 @@ class C05(Property):
                 s.add("P.1.%s" % nu.ipv4_packet(nu.node_ip(1), nu.node_ip(2), b"\x11"), "A", "O.2")
                 s.add("P.2.%s" % nu.ipv4_packet(nu.node_ip(2), nu.node_ip(1), b"\x22"), "A", "O.1")
                 out.append(s.line())
+        # a peer learnt from a BEACON as a plain IPv4 address (the beacon path dials through connect_sock directly; a dual-stack socket
+        # shows the peer's replies as coming from the IPv4-mapped form): perfectly reliable network, both must connect
+        for who in (1, 2):
+            s = nu.Scenario()
+            s.node(1, mode="tun-router", pt=60, claims=["0a000100/24"])
+            s.node(2, mode="tun-router", pt=60, claims=["0a000200/24"])
+            s.add("V.%d.%d" % (who, 3 - who), "A")
+            for _ in range(60 + 120 + 10):
+                s.t += 1
+                s.add("T.%d" % s.t, "H.1", "H.2", "A")
+            s.add("S.1", "S.2")
+            s.add("P.1.%s" % nu.ipv4_packet(nu.node_ip(1), nu.node_ip(2), b"\x11"), "A", "O.2")
+            s.add("P.2.%s" % nu.ipv4_packet(nu.node_ip(2), nu.node_ip(1), b"\x22"), "A", "O.1")
+            out.append(s.line())
         # a live node's public address changes (NAT rebinding, same node id): it re-connects from the new address while the other end
         # still holds the entry for the old one; within peer timeout + retry horizon both hold each other and payload passes both ways
         out += ru.rebind_cases(rng, 12 if thorough else 3)
@@ -191,8 +206,27 @@ class C05(Property):
     def model_line(self, line, impl_out):
         return nu.model_line(line, impl_out) if line.startswith("node ") else line
 
+    @staticmethod
+    def _v4_lengths(line, out):
+        # a peer dialled through its IPv4 form is known under two spellings of one address (the IPv4-mapped form it is seen at and the
+        # form it reports itself); the model's address space identifies them, so announcements differ in LENGTH only (one 18-byte
+        # address entry) and dumps list the address once or twice: lengths of data datagrams are not compared on such lines and
+        # address lists are compared as sets
+        if " V." not in line:
+            return out
+
+        def dedup(tok):
+            if not tok.startswith("peers="):
+                return tok
+            tok = re.sub(r"own=\[([^\]]*)\]", lambda m: "own=[%s]" % ",".join(sorted(set(m.group(1).split(",")), key=lambda x: int(x) if x else 0)), tok)
+            return re.sub(r":(\d+(?:\+\d+)+)([,\]])", lambda m: ":" + "+".join(sorted(set(m.group(1).split("+")), key=int)) + m.group(2), tok)
+        return " ".join(dedup(t) for t in re.sub(r":D\d+", ":D", out).split())
+
     def canon_impl(self, line, out):
-        return nu.canon_impl(out) if line.startswith("node ") else super().canon_impl(line, out)
+        return self._v4_lengths(line, nu.canon_impl(out)) if line.startswith("node ") else super().canon_impl(line, out)
+
+    def canon_model(self, line, out):
+        return self._v4_lengths(line, out) if line.startswith("node ") else super().canon_model(line, out)
 
     def nontrivial(self, line, impl_out):
         if line.startswith("node "):
